@@ -169,3 +169,45 @@ Fixpoint prun_obs (n : nat) (p : pool) (ops : list pop) : list obsv :=
 Definition run_case (c : nat * list Z * Z * list pop) : obsv :=
   let '(n, allowed, limit, ops) := c in
   OL (prun_obs n (pool_new allowed limit) ops).
+
+(* ---------- correspondence of the executed glue ----------
+   A real node (gossip or validator network, accepting end) is fed connections by the adversary.
+   Connection number c runs on session id c.  GEConn: the adversary opens the next connection and
+   delivers a message (Model/Handshake.v [resolve]; the node's earlier answers are what it has
+   recorded); GEDisc c: it closes connection c.  After every event: did the node answer, is the
+   connection live (past insert), and the pool contents. *)
+Inductive gevent : Type :=
+| GEConn (a : advmsg)
+| GEDisc (c : nat).
+
+Definition is_live (c : Z) (g : gstate) : bool :=
+  match live_key c (g_live g) with Some _ => true | None => false end.
+
+Fixpoint glue_obs (n : nat) (cfg : epcfg) (g : gstate) (recs : list (option hmsg)) (evs : list gevent)
+  : list obsv :=
+  match evs with
+  | [] => []
+  | GEConn a :: evs' =>
+      let sid := Z.of_nat (length recs) in
+      let hs := decide cfg sid (resolve recs a) in
+      let answer := emit_accept cfg sid hs in
+      match gstep g (GConn sid hs) with
+      | Ok g' =>
+          OL [ob (match answer with Some _ => true | None => false end); ob (is_live sid g');
+              obs_current n (g_pool g')]
+            :: glue_obs n cfg g' (recs ++ [answer]) evs'
+      | Err _ => [OL [OZ 2]]
+      | Panic x => [OL [OZ 1; OZ (panic_code x)]]
+      end
+  | GEDisc c :: evs' =>
+      match gstep g (GDisc (Z.of_nat c)) with
+      | Ok g' => OL [OZ 0; OZ 0; obs_current n (g_pool g')] :: glue_obs n cfg g' recs evs'
+      | Err _ => [OL [OZ 2]]
+      | Panic x => [OL [OZ 1; OZ (panic_code x)]]
+      end
+  end.
+
+(* case: keys in play, allowed set, extra_limit, the node's handshake configuration, events *)
+Definition run_glue_case (c : nat * list Z * Z * epcfg * list gevent) : obsv :=
+  let '(n, allowed, limit, cfg, evs) := c in
+  OL (glue_obs n cfg (ginit allowed limit) [] evs).
